@@ -138,6 +138,7 @@ def async_discovery_model(ctx, repo, rule, rule_filter=None):
     if not all(isinstance(x, (int, float)) for x in (T_INIT, T_MAX)) or not 0 < T_INIT < T_MAX:
         raise AnalysisError(f"discovery timeouts not resolved: initial {T_INIT!r}, overall {T_MAX!r}")
     A, B = (b"SPA-A", "Spa A", ("10.0.0.5", 10022)), (b"SPA-B", "Spa B", ("10.0.0.6", 10022))
+    E = (b"SPA-E", "", ("10.0.0.7", 10022))       # a spa whose owner never named it
 
     def run(kwargs, script, cancel_at=None):
         st = {"clock": 100.0, "cb": None, "closed": 0, "cancelled": [], "events": [], "sleeps": 0, "tasks": []}
@@ -149,7 +150,13 @@ def async_discovery_model(ctx, repo, rule, rule_filter=None):
                 _, (ident, name, sender) = pending.pop(0)
                 if st["cb"] is None or st["closed"]:
                     continue
-                h = Obj(None, {"spa_identifier": ident, "spa_name": name, "client_identifier": b"IOS-X", "was_broadcast_discovery": False}, name="hello-reply")
+                # the reply as the library's own handler decodes it: built by the HELLO reply builder, handled by a fresh
+                # GeckoHelloProtocolHandler - what the locator reads are that handler's accessors
+                from . import c04 as _c04
+                msg = it.call(repo.method("GeckoHelloProtocolHandler", "response"), None, [ident, name])
+                wire = it.getattr(msg, "send_bytes")
+                h = _c04.fresh_handler(repo, it, repo.cls("GeckoHelloProtocolHandler"))
+                it.call(repo.method("GeckoHelloProtocolHandler", "handle"), h, [bytes(wire) if isinstance(wire, (bytes, bytearray)) else wire, sender])
                 it.apply(st["cb"], [h, sender], {})
         transport = Obj(None, {"close": Native(lambda a, k: st.__setitem__("closed", st["closed"] + 1), "close"), "sendto": Native(lambda a, k: None, "sendto"),
                                "is_closing": Native(lambda a, k: bool(st["closed"]), "is_closing")}, name="transport")
@@ -216,6 +223,8 @@ def async_discovery_model(ctx, repo, rule, rule_filter=None):
         ("no-request::duplicates-and-two-spas", {}, [(0.2, A), (0.4, A), (0.5, B), (0.6, A), (0.7, B)], (T_INIT, T_INIT + slack), [A, B], "each responding spa is listed exactly once, in order of first reply"),
         ("no-request::late-first-answer", {}, [(T_INIT + 1.0, A)], (T_INIT + 1.0, T_INIT + 1.0 + slack), [A], "nobody answered during the initial wait: returns when the first spa answers"),
         ("nobody-answers", {}, [], (T_MAX, T_MAX + slack), [], "nobody answers: returns at the discovery timeout"),
+        ("no-request::a-spa-without-a-name", {}, [(0.2, A), (0.3, E), (0.4, B)], (T_INIT, T_INIT + slack), [A, E, B], "a responding spa whose name is empty is listed like any other, and so is every spa that answers after it"),
+        ("requested::a-spa-without-a-name", {"spa_identifier": "SPA-E"}, [(0.2, A), (0.6, E)], (0.6, 0.6 + slack), [E], "the requested spa has an empty name: listed, and discovery returns as soon as it has answered"),
         ("address-given::first-answer", {"spa_address": "10.0.0.5"}, [(0.5, A)], (0.5, 0.5 + slack), [A], "an address was given: returns as soon as that spa has answered"),
         ("empty-strings-mean-no-request", {"spa_address": "", "spa_identifier": ""}, [(0.3, A), (0.5, B)], (T_INIT, T_INIT + slack), [A, B], "empty address / identifier mean no request: the initial wait is honoured and every spa listed"),
     )
@@ -233,7 +242,7 @@ def async_discovery_model(ctx, repo, rule, rule_filter=None):
                f"{L} raises {len(ev)} discovered-spa event(s) for {len(want_list)} listed spa(s)", d.loc)
         ctx.ob(rule, f"{L}::{key}::endpoint-closed-and-helpers-cancelled", st["closed"] >= 1 and bool(st["cancelled"]) and all(k_ in st["cancelled"] for _n, k_ in st["tasks"]),
                f"{L}.discover returns with transport.close() called {st['closed']} time(s), helper tasks started under {sorted({str(k_) for _n, k_ in st['tasks']})}, domains cancelled {st['cancelled']}", d.loc)
-    ctx.floor(rule, "awaitable discovery runs interpreted", n, 8)
+    ctx.floor(rule, "awaitable discovery runs interpreted", n, 10)
     # cancelled while waiting (the manager exits, or a wait_for around discover() times out): the endpoint is closed and the
     # helper tasks' domain cancelled all the same, and the cancellation is not swallowed
     for k in (1, 7):
